@@ -31,8 +31,19 @@ type SCase struct {
 	// that was resliced shorter must be resliced back)
 	Pad []int `json:"pad"`
 	// Mode: "" (C16: every assertion) | "C12" (only: a DHCPv6 reply goes back to the source
-	// address and port of its own request)
+	// address and port of its own request) | "C11" (DHCPv4: every reply answers exactly one
+	// request and carries its transaction id and hardware address)
 	Mode string `json:"mode,omitempty"`
+	// Runts: datagrams too short to be parsed, sent before the bursts (a receive path that
+	// treats them specially must still treat what follows normally)
+	Runts int `json:"runts,omitempty"`
+}
+
+// GenS11 draws DHCPv4 cases for C11
+func GenS11(t *rapid.T) SCase {
+	c := GenS(t)
+	c.V6, c.Mode = false, "C11"
+	return c
 }
 
 // GenS12 draws DHCPv6 cases for C12
@@ -48,6 +59,9 @@ func GenS(t *rapid.T) SCase {
 	for i := 0; i < c.Senders*c.Burst; i++ {
 		c.Pad = append(c.Pad, rapid.SampledFrom([]int{0, 0, 1, 7, 64, 200, 600, 1200}).Draw(t, "pad"))
 	}
+	if rapid.Bool().Draw(t, "runts?") {
+		c.Runts = rapid.IntRange(1, 3).Draw(t, "runts")
+	}
 	return c
 }
 
@@ -60,6 +74,10 @@ func ExecS(c SCase) (res core.Result) {
 				res = core.Result{Classes: []string{"abandoned:" + res.Viol.Signature[:3]}}
 			}
 		}()
+	}
+	xt := "C16/cross-talk"
+	if c.Mode == "C11" {
+		xt = "C11/serve-loop"
 	}
 	type want struct {
 		id  []byte // chaddr / client duid
@@ -106,6 +124,19 @@ func ExecS(c SCase) (res core.Result) {
 		sentOut, addr, closeFn = s.Sent, s.Addr, s.Close
 	}
 	defer closeFn()
+	if c.Runts > 0 {
+		network := "udp4"
+		if c.V6 {
+			network = "udp6"
+		}
+		if conn, err := net.DialUDP(network, nil, addr); err == nil {
+			for i := 0; i < c.Runts; i++ {
+				conn.Write(bytes.Repeat([]byte{1}, []int{1, 3, 100, 239}[i%4]))
+			}
+			conn.Close()
+			time.Sleep(5 * time.Millisecond)
+		}
+	}
 	var wg sync.WaitGroup
 	resent := map[uint32]bool{}
 	total := 0
@@ -217,7 +248,7 @@ func ExecS(c SCase) (res core.Result) {
 		if c.V6 {
 			d, err := dhcpv6.FromBytes(s.Payload)
 			if err != nil {
-				res.Viol = core.Violate("C16/cross-talk", "Serve loop: reply does not parse: %v", err)
+				res.Viol = core.Violate(xt, "Serve loop: reply does not parse: %v", err)
 				return
 			}
 			m := d.(*dhcpv6.Message)
@@ -228,7 +259,7 @@ func ExecS(c SCase) (res core.Result) {
 		} else {
 			r, err := dhcpv4.FromBytes(s.Payload)
 			if err != nil {
-				res.Viol = core.Violate("C16/cross-talk", "Serve loop: reply does not parse: %v", err)
+				res.Viol = core.Violate(xt, "Serve loop: reply does not parse: %v", err)
 				return
 			}
 			xid = uint32(r.TransactionID[0])<<24 | uint32(r.TransactionID[1])<<16 | uint32(r.TransactionID[2])<<8 | uint32(r.TransactionID[3])
@@ -236,11 +267,11 @@ func ExecS(c SCase) (res core.Result) {
 		}
 		w, ok := reqs[xid]
 		if !ok {
-			res.Viol = core.Violate("C16/cross-talk", "Serve loop: a reply carries transaction id %#x, which no request had", xid)
+			res.Viol = core.Violate(xt, "Serve loop: a reply carries transaction id %#x, which no request had", xid)
 			return
 		}
 		if !bytes.Equal(w.id, id) {
-			res.Viol = core.Violate("C16/cross-talk", "Serve loop: the reply to xid %#x carries client %x, the request had %x: receive buffers were mixed up", xid, id, w.id)
+			res.Viol = core.Violate(xt, "Serve loop: the reply to xid %#x carries client %x, the request had %x: receive buffers were mixed up", xid, id, w.id)
 			return
 		}
 		// a DHCPv6 reply goes back to where its request came from (the datagrams sent again one
@@ -254,6 +285,10 @@ func ExecS(c SCase) (res core.Result) {
 				res.Viol = core.Violate(sig, "Serve loop: the reply to xid %#x (sent from %v) was addressed to %v: one of %d datagrams sent back to back from %d sockets", xid, w.src, s.Peer, total, c.Senders)
 				return
 			}
+		}
+		if seen[xid] && !resent[xid] {
+			res.Viol = core.Violate(xt, "Serve loop: the request with xid %#x, sent once, was answered twice (%d datagrams in the burst, %d replies)", xid, total, len(out))
+			return
 		}
 		seen[xid] = true
 	}
